@@ -61,11 +61,21 @@ def generic_replay(path):
 
         reg = driver.load_registry()
         c = reg[pl["func"]]
-        kwargs = {k: eval(v) for k, v in pl["input"].items()}
+        import ast as _ast
+
+        env = dict(vars(_ast))  # inputs that are AST nodes are recorded as ast.dump text, which is constructor syntax
+        kwargs = {k: eval(v, env) for k, v in pl["input"].items()}
         real = driver.real_call(c, kwargs)
-        print("input:", kwargs)
-        print("real code now:", real["outcome"], repr(real["value"])[:300])
+        show = lambda v: _ast.dump(v) if isinstance(v, _ast.AST) else repr(v)  # noqa: E731
+        print("input:", {k: show(v)[:400] for k, v in kwargs.items()})
+        print("real code now:", real["outcome"], show(real["value"])[:600])
         print("recorded     :", pl.get("observed"))
+        clause = pl.get("clause")
+        if clause and real["outcome"] == "return":
+            try:
+                print("clause %s on the real result now: %s" % (clause[:200], driver.eval_clause_py(c, clause, kwargs, real["value"], {}, real=real)))
+            except Exception as e:  # noqa
+                print("clause not evaluable without the engine's ghosts / effect log: %s: %s" % (type(e).__name__, e))
         return 0
     print(json.dumps(pl, indent=1)[:3000])
     return 0
